@@ -918,7 +918,49 @@ def gen_C01(r, n, pool=None):
             for k in e['args']:
                 w += c01_arg(k, r, pool)
             c.add(' '.join(w), op=e['name'])
+    if pool is None:
+        # the adversarial operand strata of the operator / constructor / rounding properties (cancellation at every depth,
+        # ties, short significands, power-of-two divisors, integer-valued words, wide integers): here only the invariant is checked
+        for g, k in ((gen_C02, 40), (gen_C03, 12), (gen_C04, 40), (gen_C05, 40), (gen_C08, 20), (gen_C19, 40)):
+            sub = g(r, max(20, n // k))
+            for ln in sub.lines:
+                if c01_in_domain(ln):
+                    c.add(ln, op=ln.split()[0])
+        sub = gen_C09(r, max(10, n // 400))
+        for ln, m in zip(sub.lines, sub.meta):
+            if m['kind'] == 'from':
+                c.add(ln, op=ln.split()[0])
     return c
+
+def c01_in_domain(line):
+    """operands valid with high words 0 or in [2^-1000, 2^1000]; error-free product/quotient only when it is 0 or >= 2^-960"""
+    w = line.split()
+    op, args = w[0], w[1:]
+    xs = []
+    for a in args:
+        if len(a) == 16 and all(ch in '0123456789abcdef' for ch in a):
+            xs.append(unhx(a))
+        elif len(a) != 8:
+            try:
+                int(a)
+            except ValueError:
+                return False
+    lo_b, hi_b = Fr(2) ** -1000, Fr(2) ** 1000
+    for x in xs:
+        if not fp.isfin(x):
+            return False
+    f_only = op.startswith('TwoFloat.new_') or op.endswith('from_f64')
+    if f_only:
+        for x in xs:
+            if x != 0 and not (lo_b <= abs(Fr(x)) <= hi_b):
+                return False
+        if op in ('TwoFloat.new_mul', 'TwoFloat.new_div') and len(xs) == 2:
+            if op == 'TwoFloat.new_div' and xs[1] == 0:
+                return False
+            q = Fr(xs[0]) * Fr(xs[1]) if op == 'TwoFloat.new_mul' else Fr(xs[0]) / Fr(xs[1])
+            if q != 0 and abs(q) < Fr(2) ** -960:
+                return False
+    return True
 
 def results_of(a, ret='tf'):
     if a in ('PANIC', 'bad-op', 'Err', 'None'):
